@@ -39,6 +39,7 @@ class Ctx:
         self.stats = {'sqrt_checks': 0, 'zero_checks': 0, 'lookups': 0}
         self.fresh = 0
         self.notes = []
+        self.residue = False          # a symbolic value that is zero only by algebraic cancellation is, in floating point, a rounding residue of unknown sign: fork on it
         self.int_range = False        # record ('int-range', lo <= r <= hi) for integer-dtype arithmetic on integer / real valued terms (which do not wrap by themselves)
 
 
@@ -332,6 +333,8 @@ def _sign_of(x):
     if _conc_num(x):
         return (x > 0) - (x < 0)
     if identically_zero(x):
+        if CTX.residue and CTX.ex is not None:
+            return (0, 1, -1)[CTX.ex.choose(3, 'rounding-residue')]
         return 0
     if CTX.ex is None:
         raise ShimUnsupported('sign of a symbolic value needed without an executor')
